@@ -471,7 +471,12 @@ def _spec_xor(I, args, kw):
     return strxor(I, None, args, kw)
 
 
+def _spec_is_xml(I, args, kw):
+    return B.opaque_bool(I, "is_xml", [I.resolve(args[0])])
+
+
 SPEC_LIB = {
+    "is_xml": _spec_is_xml,
     "md5": _spec_hash("md5", 16), "sha256": _spec_hash("sha256", 32),
     "aes_ecb_enc": _spec_aes(AES_MODE_ECB, "encrypt"), "aes_ecb_dec": _spec_aes(AES_MODE_ECB, "decrypt"),
     "aes_cbc_enc": _spec_aes(AES_MODE_CBC, "encrypt"), "aes_cbc_dec": _spec_aes(AES_MODE_CBC, "decrypt"),
@@ -706,6 +711,14 @@ def env_step(I):
     t1 = z3.Int(fresh("clock"))
     I.path.assume(t1 >= t0)
     I.path.ghost["clock"] = t1
+    for proto in list(I.path.ghost.get("events", {}).get("connected", [])):
+        po = I.hobj(proto)
+        if po.kind == "inst" and po.cls.name == "_V1DeviceInfoProtocol" and not po.meta.get("fed"):
+            po.meta["fed"] = True
+            if I.path.choose(2, "peer_data") == 1:
+                n = z3.Int(fresh("rx_len"))
+                I.path.assume(z3.And(n >= 0, n <= MAXLEN))
+                I.call(I.getattr_(proto, "data_received"), [VBytes([View(z3.Const(fresh("rx"), B.ARR), 0, n)])], {})
     for ref, o in list(I.path.heap.items()):
         if o.kind == "ext" and o.meta.get("tag") == "transport":
             c = o.meta["closing"]
@@ -781,3 +794,192 @@ _LIB.update({"asyncio.Queue": new_queue, "asyncio.wait_for": asyncio_wait_for, "
 _EXT_ATTR.update({"queue": queue_attr, "transport": transport_attr, "loop": loop_attr})
 _LIB_PREFIX.update({"queue.": queue_call, "transport.": transport_call, "loop.": loop_call})
 _EXT_MAKE.update({"queue": make_queue, "transport": make_transport})
+
+
+# ===============================================================================================
+# strings, XML, ipaddress (opaque deterministic functions with assumed raise conditions)
+# ===============================================================================================
+
+def bytes_decode(I, vb, args, kw):          # noqa: F811
+    used(I, "bytes.decode(): UnicodeDecodeError iff the bytes are not valid UTF-8 (uninterpreted predicate); otherwise a deterministic string")
+    vb = I.resolve(vb)
+    if vb.is_concrete():
+        try:
+            return VStr(c=vb.concrete().decode())
+        except UnicodeDecodeError:
+            I.raise_py("builtins.UnicodeDecodeError", "invalid utf-8")
+    ok = B.opaque_bool(I, "utf8_ok", [vb])
+    if not I.path.branch(ok.term(), "utf8"):
+        I.raise_py("builtins.UnicodeDecodeError", "invalid utf-8")
+    return I.opaque_str("decode", vb.key())
+
+
+def str_method(I, fv, args, kw):            # noqa: F811
+    name = fv.name.split(".")[-1]
+    s = fv.self_val
+    if s.c is not None and all(isinstance(a, (VStr, VInt)) and a.c is not None for a in args):
+        pa = [a.c for a in args]
+        if name in ("startswith", "endswith"):
+            return mkbool(getattr(s.c, name)(*pa))
+        if name in ("upper", "lower", "capitalize", "strip"):
+            return VStr(c=getattr(s.c, name)(*pa))
+        if name == "encode":
+            try:
+                return VBytes.lit(s.c.encode(*pa))
+            except UnicodeEncodeError:
+                I.raise_py("builtins.UnicodeEncodeError", "encode")
+        if name == "split":
+            return I.new_list([VStr(c=x) for x in s.c.split(*pa)])
+    if name == "split" and len(args) == 1 and isinstance(args[0], VStr) and args[0].c is not None:
+        used(I, "str.split(sep): deterministic list of at least one field (uninterpreted)")
+        from . import symlist
+        n = B.opaque_int(I, "split_len", [s, args[0]], 1, MAXLEN)
+        lst = symlist.make(I, I.contracts, "str", "split", length=n)
+        o = I.hobj(lst)
+        o.meta["elem_factory"] = lambda idx: I.opaque_str("split_elem", I.str_term(s).get_id(), args[0].c, B.vkey(I, idx))
+        return lst
+    if name == "encode":
+        used(I, "str.encode(): UnicodeEncodeError iff not encodable (uninterpreted predicate); otherwise deterministic bytes")
+        enc = args[0].c if args else "utf-8"
+        ok = B.opaque_bool(I, "encodable_" + enc, [s])
+        if not I.path.branch(ok.term(), "encodable"):
+            I.raise_py("builtins.UnicodeEncodeError", "encode")
+        n = B.opaque_int(I, "enc_len", [s], 0, MAXLEN)
+        return B.opaque_bytes(I, "encode_" + enc, [s], n.as_int())
+    if name == "startswith" and isinstance(args[0], VStr) and args[0].c is not None:
+        return B.opaque_bool(I, "str_startswith", [s, args[0]])
+    if name in ("upper", "lower", "capitalize", "strip", "format"):
+        return I.opaque_str(name, I.str_term(s).get_id())
+    raise Unsupported(f"str method {name}")
+
+
+def int_of_str(I, a, rest, kw):             # noqa: F811
+    if a.c is not None and all(isinstance(x, VInt) and x.c is not None for x in rest):
+        try:
+            return mkint(int(a.c, *[x.c for x in rest]))
+        except ValueError:
+            I.raise_py("builtins.ValueError", "invalid literal for int()")
+    used(I, "int(s[, base]): ValueError iff s is not a number in that base (uninterpreted predicate); otherwise a deterministic integer")
+    base = rest[0].c if rest else 10
+    ok = B.opaque_bool(I, f"int_ok_{base}", [a])
+    if not I.path.branch(ok.term(), "int_of_str"):
+        I.raise_py("builtins.ValueError", "invalid literal for int()")
+    return B.opaque_int(I, f"int_of_str_{base}", [a])
+
+
+def et_fromstring(I, fv, args, kw):
+    used(I, "ET.fromstring(b): ParseError unless b is XML (uninterpreted predicate); never XML when b starts with 5a5a or 8370")
+    x = I.resolve(args[0])
+    if isinstance(x, VStr):
+        ok = B.opaque_bool(I, "is_xml_s", [x])
+    else:
+        ok = B.opaque_bool(I, "is_xml", [x])
+        n = x.length()
+        if isinstance(n, int) and n < 2:
+            pass
+        else:
+            two = z3.And(_iv(n) >= 2, z3.Or(z3.And(x.at(0) == 0x5a, x.at(1) == 0x5a), z3.And(x.at(0) == 0x83, x.at(1) == 0x70)))
+            I.path.assume(z3.Implies(two, z3.Not(ok.term())))
+    if not I.path.branch(ok.term(), "xml"):
+        I.raise_py("xml.etree.ElementTree.ParseError", "not xml")
+    return ext_obj(I, "xml_element", src=x)
+
+
+def xml_attr(I, ref, o, name):
+    from .interp import VBuiltin
+    if name == "attrib":
+        return ext_obj(I, "xml_attrib", el=ref)
+    return VBuiltin("xml." + name, ref)
+
+
+def xml_call(I, fv, args, kw):
+    name = fv.name.split(".")[-1]
+    if name == "find":
+        found = B.opaque_bool(I, "xml_find", [fv.self_val, args[0]])
+        if I.path.branch(found.term(), "xml_find"):
+            return ext_obj(I, "xml_element", src=None)
+        return NONE
+    raise Unsupported(f"xml method {name}")
+
+
+def ipv4address(I, fv, args, kw):
+    used(I, "ipaddress.IPv4Address(b): AddressValueError iff len(b) != 4")
+    b = I.resolve(args[0])
+    if not isinstance(b, VBytes):
+        raise Unsupported("IPv4Address of a non-bytes value")
+    n = b.length()
+    if (isinstance(n, int) and n != 4) or (not isinstance(n, int) and I.path.branch(_iv(n) != 4, "ipv4len")):
+        I.raise_py("ipaddress.AddressValueError", "Address must be 4 bytes")
+    return ext_obj(I, "ipv4", b=b)
+
+
+def str_of(I, a):                           # noqa: F811
+    if isinstance(a, VRef) and I.hobj(a).kind == "ext" and I.hobj(a).meta.get("tag") == "ipv4":
+        return I.opaque_str("ipv4str", I.hobj(a).meta["b"].key())
+    return I.opaque_str("str", B.vkey(I, a))
+
+
+def ext_getitem(I, base, o, idx):           # noqa: F811
+    if o.meta.get("tag") == "xml_attrib":
+        used(I, "Element.attrib[k]: KeyError iff the attribute is missing (uninterpreted predicate)")
+        has = B.opaque_bool(I, "xml_has_attr", [base, idx])
+        if not I.path.branch(has.term(), "xml_attr"):
+            I.raise_py("builtins.KeyError", "attribute")
+        return I.opaque_str("xml_attr", base.ref, B.vkey(I, idx))
+    raise Unsupported(f"subscript of {o.kind}/{o.meta.get('tag')}")
+
+
+_LIB.update({"xml.etree.ElementTree.fromstring": et_fromstring, "xml.etree.ElementTree.tostring": lambda I, fv, a, k: I.opaque_str("xmlstr", id(a[0])),
+             "ipaddress.IPv4Address": ipv4address})
+_EXT_ATTR.update({"xml_element": xml_attr})
+_LIB_PREFIX.update({"xml.": xml_call})
+
+
+# ===============================================================================================
+# predicate sets (unbounded universe), tasks, datagram endpoints
+# ===============================================================================================
+
+def make_pset(I, cs, typ, name):
+    """ext:pset - a set over an unbounded universe: membership of its initial content is an uninterpreted predicate"""
+    return VRef(I.path.alloc(HObj("ext", None, {}, meta={"tag": "pset", "name": fresh(name), "added": []})))
+
+
+def pset_contains(I, ref, o, x):
+    base = B.opaque_bool(I, "member_" + o.meta["name"], [x]).term()
+    terms = [base] + [ops.eq_values(I, a, x).term() for a in o.meta["added"]]
+    return VBool(t=z3.Or(terms))
+
+
+def ext_contains(I, ref, o, x):             # noqa: F811
+    if o.meta.get("tag") == "pset":
+        return pset_contains(I, ref, o, x)
+    raise Unsupported(f"`in` on {o.kind}/{o.meta.get('tag')}")
+
+
+def pset_attr(I, ref, o, name):
+    from .interp import VBuiltin
+    return VBuiltin("pset." + name, ref)
+
+
+def pset_call(I, fv, args, kw):
+    o = I.hobj(fv.self_val)
+    name = fv.name.split(".")[-1]
+    if name == "add":
+        I.log_write(("cont", fv.self_val.ref))
+        o.meta["added"] = o.meta["added"] + [args[0]]
+        I.path.ghost.setdefault("events", {}).setdefault("added:" + o.meta.get("label", "set"), []).append(args[0])
+        return NONE
+    raise Unsupported(f"set method {name} on an unbounded set")
+
+
+def asyncio_create_task(I, fv, args, kw):
+    used(I, "asyncio.create_task(coro): schedules the coroutine; its body runs later (verified separately against its own contract)")
+    t = ext_obj(I, "task", coro=args[0])
+    I.path.ghost.setdefault("events", {}).setdefault("task_created", []).append(t)
+    return t
+
+
+_LIB.update({"asyncio.create_task": asyncio_create_task})
+_EXT_ATTR.update({"pset": pset_attr})
+_LIB_PREFIX.update({"pset.": pset_call})
+_EXT_MAKE.update({"pset": make_pset})
